@@ -1,6 +1,6 @@
 """X-util_async: the small asynchronous utilities everything else relies on - allmydata/util/observer.py
 (OneShotObserverList, LazyOneShotObserverList, ObserverList, EventStreamObserver), util/deferredutil.py (gatherResults,
-DeferredListShouldSucceed, race, timeout_call, HookMixin, until, eventual_chain), util/pollmixin.py (PollMixin.poll),
+DeferredListShouldSucceed, race, timeout_call, HookMixin, until, eventual_chain, async_to_deferred, WaitForDelayedCallsMixin), util/pollmixin.py (PollMixin.poll),
 util/consumer.py (MemoryConsumer, download_to_data), util/dictutil.py (DictOfSets, AuxValueDict, Bytes/UnicodeKeyDict).
 
 MC     spec/util/MCAsyncUtil: every interleaving (to a depth per kind) of client calls and environment steps (reactor turn,
@@ -14,7 +14,7 @@ TRACE  harness/utilasync_driver.py replays these TLC-generated behaviours (plus 
 import collections, json, os, random, re
 
 KINDS = ["oneshot", "lazy", "obslist", "stream", "poll", "gather", "dlss", "race", "timeout", "hook", "until", "evchain",
-         "consumer", "dictofsets", "auxdict", "typedkeys"]
+         "a2d", "waitdc", "consumer", "dictofsets", "auxdict", "typedkeys"]
 EXPECTED_DEVIATIONS = {"OS_FireNotReentrant", "AV_DelBehavesLikeDict"}
 
 
@@ -49,7 +49,10 @@ def histories(r, src, rnd, per_kind):
     for kind in sorted(by_kind):
         hs = sorted(by_kind[kind])
         if len(hs) > per_kind:
-            hs = rnd.sample(hs, per_kind)
+            # behaviours that end after one command (a refused constructor ...) are few and always kept
+            short1 = [h for h in hs if kind != "consumer" and len(json.loads(h)) == 1]
+            rest = [h for h in hs if h not in short1]
+            hs = short1 + rnd.sample(rest, min(per_kind, len(rest)))
         out += [{"kind": kind, "cmds": json.loads(h), "src": src} for h in hs]
     return out, dict((k, len(v)) for k, v in by_kind.items())
 
@@ -82,7 +85,9 @@ def nontrivial(tr):
             return True
         if k == "poll" and any(p["status"] != "pending" for p in o.values()):
             return True
-        if k in ("gather", "dlss", "race", "timeout", "until") and o["status"] != "pending":
+        if k in ("gather", "dlss", "race", "timeout", "until", "a2d") and o["status"] != "pending":
+            return True
+        if k == "waitdc" and o["status"] in ("ok", "fail"):
             return True
         if k == "hook" and (o["fired"] or o["status"] != "ok"):
             return True
@@ -143,7 +148,7 @@ def run(ctx):
                         sum(1 for t in traces if t["consts"]["src"] != "scripted"), steps, dict(sorted(per.items()))))
     ctx.trace("util/TraceAsyncUtil", traces, key_of=key_of, what_of=what_of, batch=1500, workers=4, timeout=3000)
     ctx.rule = ("MC: every behaviour of MCAsyncUtil up to the per-kind depth (quick: oneshot 5, lazy 4, obslist 4, stream 4, poll 3, "
-                "gather/dlss 5, race 4, timeout 6, hook 3, until 5, evchain 5, consumer 1, dictofsets 3, auxdict 3, typedkeys 3; thorough +2) "
+                "gather/dlss 5, race 4, timeout 6, hook 3, until 5, evchain 5, a2d 3, waitdc 4, consumer 1, dictofsets 3, auxdict 3, typedkeys 3; thorough +2) "
                 "with the narrow command alphabets; the necessity run must break the rules of the two listed deviations. "
                 "TRACE: a seeded sample (<= %d per kind) of the maximal behaviours of that exhaustive run, a seeded sample (<= %d per kind) of "
                 "the behaviours printed by TLC -simulate (depth %d, wide alphabets, -seed = --seed), and the scripted histories of the "
